@@ -151,9 +151,7 @@ def handleMusig : List String → String
       if out.any (· == "err:sign") then head ++ " err:sign" else head ++ " " ++ pick "sig="
     | _, _, _ => "bad-op"
   | ["lows", h] => match hexToList? h with
-    | some b => match Spec.parseDER b with
-      | some (_, s) => if s ≤ halfN then "ok" else "err"
-      | none => "err"
+    | some b => if verifyLowS (Spec.parseDER b) then "ok" else "err"
     | none => "bad-op"
   | ["jac", a, b] => match hexToList? a, hexToList? b with
     | some a, some b => match parseNoncePoint a, parseNoncePoint b with
@@ -178,9 +176,9 @@ def handleMusig : List String → String
       | _ => s!"c={c} err"
     | none => "bad-op"
   | ["psdec", h] => match hexToList? h with
-    | some b => if b.length < 32 then "err" else
-      let s := fromBE (b.take 32)
-      if s ≥ n then "err" else "ok " ++ hex32 s
+    | some b => match decodePartialSig b with
+      | some s => "ok " ++ listToHex (encodePartialSig s)
+      | none => "err"
     | none => "bad-op"
   | ["rfc", priv, hash, extra, version, iter] =>
     match hexToList? priv, hexToList? hash, hexToList? extra, hexToList? version, iter.toNat? with
